@@ -144,7 +144,7 @@ def run(ctx):
     for c, (io, mo) in zip(cases, res):
         acc_in.append(c[0])
         for l, i, m in zip(c[1:], io[1:], mo[1:]):
-            acc_in.append("%s => %s" % (l, G.adopt_model_tokens(i, m.lstrip("?").replace("!drift", ""))))
+            acc_in.append("%s => %s" % (l, G.adopt_model_tokens(i, G.strip_flags(m.lstrip("?")))))
     acc_out, rc, err = C.run_lines([driver, "accept"], acc_in, timeout=1800)
     if len(acc_out) != len(cases):
         broken.append(dict(kind="harness", what="acceptor run failed rc=%s %s" % (rc, err[-300:])))
@@ -161,7 +161,7 @@ def run(ctx):
             bad.append("restart-failed:" + hard[0])
         if bad:
             rejected += 1
-            mcls = ["id-drift"] if any(m.endswith("!drift") for m in mo) else []
+            mcls = G.model_classes(mo)
             failures.append(dict(kind="acceptor", acceptor=",".join(bad), classes=sorted(classes_of_case(c, B, MA)) + mcls,
                                  case_lines=c, impl=[x[:200] for x in io],
                                  what="implementation trace rejected by %s" % ",".join(bad)))
@@ -231,7 +231,7 @@ def run(ctx):
                     ne += 1
                     mo_c = res_map[id(c)][1]
                     failures.append(dict(kind="acceptor", acceptor="erasure",
-                                         classes=sorted(classes_of_case(c, B, MA)) + (["id-drift"] if any(m.endswith("!drift") for m in mo_c) else []),
+                                         classes=sorted(classes_of_case(c, B, MA)) + G.model_classes(mo_c),
                                          case_lines=c, with_restarts=dict(delivered=da, final_counts=ca),
                                          without_restarts=dict(delivered=db, final_counts=cb),
                                          what="restarts changed the delivered stream or the final counts"))
